@@ -1755,6 +1755,14 @@ package compose
 //@   at call g.onCompileFinish: assert[no_step_limit_in_dag_mode] @C20 !(r.dag && r.options.maxRunSteps > 0)
 //@   at call g.onCompileFinish: assert[pregel_has_a_step_limit] @C20,C01 r.dag || r.options.maxRunSteps != 0
 //@   at call g.onCompileFinish: assert[marked_compiled] @C20 g.compiled
+//@   at call g.onCompileFinish: assert[pre_node_handlers_of_the_graph_untouched] @C20 forall(k string :: in(k, g.handlerPreNode) == old(in(k, g.handlerPreNode))) && forall(k string :: old(in(k, g.handlerPreNode)) ==> len(g.handlerPreNode[k]) == old(len(g.handlerPreNode[k])))
+//@   note pre_node_handlers_of_the_graph_untouched: the handler tables belong to the graph and are shared with every runnable compiled from it; compiling (again) must not change them, otherwise an already compiled runnable changes behaviour
+//@   loop 2:
+//@     modifies map(handlerPreNode)
+//@   loop 3:
+//@     modifies map(handlerPreNode), fresh()
+//@   loop 4:
+//@     modifies fresh()
 
 //@ func takeOne
 //@   props C15
